@@ -92,6 +92,13 @@ def main(argv=None) -> int:
         print(f"replay: property {prop} held on {a.replay}")
         return 0
 
+    rdir = os.path.join(core.VERIF_HOME, "replays", prop)
+    if os.path.isdir(rdir):                      # replay files of earlier runs are stale
+        for f in os.listdir(rdir):
+            try:
+                os.remove(os.path.join(rdir, f))
+            except OSError:
+                pass
     results, failures = [], []
     with cf.ThreadPoolExecutor(max_workers=min(16, nshards)) as ex:
         futs = [ex.submit(_run_shard, prop, a.tier, a.seed, s, nshards, cases, timeout, hashseeds[s % len(hashseeds)])
@@ -179,6 +186,9 @@ def main(argv=None) -> int:
     for k, n in known.items():
         print(f"KNOWN-FINDING: property={prop} {kf.what(prop, k)} (seen {n}x in this run)")
     if violations:
+        hist = collections.Counter((v["clause"], (v.get("witness") or {}).get("where", "")) for v in violations)
+        for (cl, wh), n in hist.most_common(12):
+            print(f"[{prop}] violation kind: {n}x {cl} {wh}")
         seen = set()
         for v in violations:
             sig = (v["clause"], v.get("mechanism"))
